@@ -24,7 +24,8 @@ RULE = ('tuples (seed, message 0..512 bytes, tweak): tweaks = random 32-byte '
         'decrypt, decrypt_adapter, deprecated one-script locks) end to end '
         'with sigfields and flags; MAKE_ADAPTER_SIG_PRIVATE consistency. '
         'distinct = by tuple and corruption; non-trivial = an unclamped / edge '
-        'tweak or a corruption case')
+        'tweak or a corruption case'
+        ' [plus the documented registers read back (@R @sa @T), same-run sequences, the zero tweak, adapters for another point / forged from a plain signature against the one-script locks, registers-off processes]')
 ASSUMPTIONS = [
     'pure-Python RFC 8032 implementation is the signature reference',
     'the effective tweak scalar of a 32-byte string is its low 255 bits (how '
